@@ -16,6 +16,12 @@ fn external_factory(path: &str) -> Box<dyn Fn() -> Box<dyn SatSolver>> {
     Box::new(move || Box::new(ExternalSatSolver::new(p.clone(), vec![])))
 }
 
+/// the same external solver printing PARTIAL models (don't-care variables left unassigned)
+fn external_partial_factory(path: &str) -> Box<dyn Fn() -> Box<dyn SatSolver>> {
+    let p = path.to_string();
+    Box::new(move || Box::new(ExternalSatSolver::new(p.clone(), vec!["--partial".to_string()])))
+}
+
 const ACCEPT: [(&str, &str); 12] = [
     ("GR", "DC"), ("GR", "DS"), ("CO", "DC"), ("ST", "DC"), ("ST", "DS"), ("PR", "DS"),
     ("SST", "DC"), ("SST", "DS"), ("STG", "DC"), ("STG", "DS"), ("ID", "DC"), ("ID", "DS"),
@@ -228,6 +234,10 @@ pub fn run_cross(rng: &mut Rng, count: usize, thorough: bool, extra: &[String], 
                         if *sem != "GR" && small_for_external && rng.chance(1, 3) {
                             let r = guarded(|| run_query(&af, sem, q, cert, enc, &args, external_factory(p)));
                             out.out(&format!("cfg {} {} {} {} {} external => {}", sem, q, arg, enc, if cert { 1 } else { 0 }, acc_string(&r)));
+                        }
+                        if *sem != "GR" && small_for_external && rng.chance(1, 3) {
+                            let r = guarded(|| run_query(&af, sem, q, cert, enc, &args, external_partial_factory(p)));
+                            out.out(&format!("cfg {} {} {} {} {} external-partial => {}", sem, q, arg, enc, if cert { 1 } else { 0 }, acc_string(&r)));
                         }
                     }
                 }
